@@ -83,12 +83,10 @@ impl Hsla {
 /// Value is an angle in degrees, return same angle, but 0 <= value < 360.x
 fn deg_mod(value: f64) -> f64 {
     let turn = 360.;
-    let value = value % turn;
-    if value.is_sign_negative() {
-        value + turn
-    } else {
-        value
-    }
+    let value = value.rem_euclid(turn);
+    // rem_euclid can round up to a whole turn for tiny negative values,
+    // and gives -0 for negative multiples of a turn.
+    if value >= turn { 0. } else { value.abs() }
 }
 
 impl Display for Formatted<'_, Hsla> {
